@@ -52,6 +52,7 @@ def fill(n):
     elif k == "map":
         fill(n["keys"]); fill(n["vals"])
     elif k == "object":
+        n.setdefault("impl", "plain")
         for p in n["props"]:
             p.setdefault("has_default", False)
             p.setdefault("disabled", False)
@@ -115,8 +116,8 @@ def focus(a, b, with_path=False):
                 return None
             seen.add(key)
             flags = lambda p: (p["name"], p["required"], p.get("has_default", False), p.get("disabled", False))
-            hx = (ox["id"], ox["id_unenforced"], [flags(p) for p in ox["props"]])
-            hy = (oy["id"], oy["id_unenforced"], [flags(p) for p in oy["props"]])
+            hx = (ox["id"], ox["id_unenforced"], ox.get("impl", "plain"), [flags(p) for p in ox["props"]])
+            hy = (oy["id"], oy["id_unenforced"], oy.get("impl", "plain"), [flags(p) for p in oy["props"]])
             if hx != hy:
                 return ox, oy, (path if kx == "object" else here)
             for px, py in zip(ox["props"], oy["props"]):
@@ -438,7 +439,8 @@ def run(ctx):
     thorough = ctx.tier == "thorough"
     stats = {}
     ctx.rule = ("every state of CompatMC is one case (consumer, producer, mode): all ordered pairs of the "
-                "generated universe (objects with required x default x disabled property flags included) at depth 1, same-family and representative cross-family pairs under 7 "
+                "generated universe (objects with required x default x disabled property flags, struct-mapped and typed "
+                "objects included) at depth 1, same-family and representative cross-family pairs under 7 "
                 "wrappers at depth 2, under wrapper pairs at depth 3; modes direct / same instance / producer or "
                 "consumer rebuilt from its description; each case = %d calls of ValidateCompatibility; plus seeded "
                 "random pairs (depth <= 5) validated by CompatTrace.  distinct = distinct (consumer AST, producer "
@@ -485,7 +487,13 @@ def run(ctx):
         "required whether or not it also declares a default or is disabled; a disabled property refuses DATA, "
         "it does not make the schema incompatible with itself or its rebuilt copy",
         "base kind is taken with the SDK's affinities (integer{int,enum_int}, string{string,enum_string}, "
-        "object{object,ref,scope}); any on either side and integer<->float are unconstrained",
+        "object{object,ref,scope}); integer<->float is unconstrained; an any PRODUCER is unconstrained; an any "
+        "CONSUMER must reject a pattern producer (any is a wildcard over maps, lists, integers, floats, strings, "
+        "bools; a pattern's values are compiled regular expressions it refuses) and is unconstrained against "
+        "every other kind (the SDK takes plain and struct-mapped objects and one-ofs but refuses references, "
+        "scopes of struct-mapped objects and typed objects: either verdict is consistent with the statement)",
+        "struct-mapped and typed objects are bound to one Go struct of the harness (fields of type any for ten "
+        "property names); typed SCOPES (NewTypedScopeSchema) are not generated",
         "'missing members' is read as: a key of the consumer's one-of is absent from the producer's; whether "
         "incompatible member objects, extra producer members, int vs. enum ranges must be rejected is left open",
         "scopes whose description the SDK cannot produce or read back (enum values without display name) are "
